@@ -1,5 +1,5 @@
 #!/bin/bash
 # usage: tools/ingest_seed3.sh <letter> <prop> : stores /tmp/seed3/<letter>/seed as seeded/<prop>r3<letter> and runs the check
-L=$1; P=$2; d=/verif/seeded/${P}r3$L
-mkdir -p $d; cp /tmp/seed3/$L/seed/patch.diff /tmp/seed3/$L/seed/demo.py /tmp/seed3/$L/seed/README.md $d/
+L=$1; P=$2; R=${3:-3}; d=/verif/seeded/${P}r${R}$L
+mkdir -p $d; cp /tmp/seed$R/$L/seed/patch.diff /tmp/seed$R/$L/seed/demo.py /tmp/seed$R/$L/seed/README.md $d/
 cd /verif; tools/try_seed.sh $d/patch.diff $P 2>&1 | grep -E "exit=|failed obl|bounded stand|OUT-OF|UNDEC|CRASH|apply" | head -8
